@@ -8,10 +8,22 @@ Local Open Scope string_scope.
 
 (** p:x matches exactly the elements whose namespace URI is the URI the QUERY binds
     to p and whose local name is x (the resolved test carries the URI) *)
-Theorem C11_prefix_resolved_through_query_bindings : forall en pf l,
-  resolve_test en (NTQName pf l) =
+Theorem C11_prefix_resolved_through_query_bindings : forall en a pf l,
+  resolve_test en a (NTQName pf l) =
   match assoc_str pf (e_ns en) with Some u => Ok (RQName u l) | None => Err end.
 Proof. reflexivity. Qed.
+
+(** an unprefixed name test is the local name in no namespace on every axis but the
+    namespace axis, where the library applies its own rule (outside C01 and outside the
+    clause above): the name is looked up in the query's bindings and selects the namespace
+    nodes with that URI - so it too depends on the query's bindings only *)
+Theorem C11_unprefixed_test_resolution : forall en a l,
+  resolve_test en a (NTName l) =
+  match a with
+  | Namespace => Ok (RNsValue (match assoc_str l (e_ns en) with Some u => u | None => [] end))
+  | _ => Ok (RName l)
+  end.
+Proof. intros en a l. destruct a; reflexivity. Qed.
 
 Theorem C11_qname_test_matches_expanded_name : forall d u l p,
   test_node d PElem (RQName u l) p = true <->
